@@ -80,3 +80,45 @@ claim("C14", "Lean 4 theorems (complete characterisation of the scan loop for an
       "with start = noise length, with a bytes-only sufficient condition per transport (…_resync); (2) no frame is ever reported after an offset that is not rejected (…_no_later, …_not_after); "
       "(3) 256 rejected offsets in a buffer of >= 257 bytes give an error, not 'incomplete' (…_gives_up), while <= 256 bytes of garbage give 'incomplete' by design (Props/C14.lean).",
       "Clause 3 is read with the buffer-length premise (>= 257 bytes): short garbage yields 'incomplete' by design and a unit test of the crate asserts it. RTU-request offsets whose function-code byte is 0x0F/0x10 are open finding D4.")
+
+claim("C01", "Lean 4 theorems (decoder on each layout, composition with the encoder equation and the packing theorems) + differential correspondence + round-trip oracle",
+      "Proved for the model, for every request built through the public constructors (any target capacity/contents; all 16-bit field values; 1..2040 coils, 1..127 words; every unmodelled custom code < 0x80 with any data): "
+      "encoding into any large-enough buffer succeeds, returns exactly pdu_len, and decoding those bytes gives a request with the same meaning (req_roundtrip); for values outside the limits or custom codes >= 0x80 the decoder "
+      "may refuse but never returns a different request (req_never_other, req_high_custom_refused) (Props/C01.lean).",
+      "Meaning = Lemmas/Sem.lean (kind, fields, coil/word lists read through iteration; custom: code byte and data). A custom request whose code IS a modelled kind decodes as that kind (witness in the file); the property excludes those.")
+
+claim("C02", "Lean 4 theorems (decoder on each layout, padTo8 algebra, byte-wise case analysis for the exception marker) + differential correspondence (exception table exhaustive) + round-trip oracle",
+      "Proved for the model, for every response built through the public constructors: encode returns exactly pdu_len and decoding gives the same kind with identical fields and register words; coil payloads come back with identical leading coils, "
+      "count 8*ceil(n/8), padding off (rsp_roundtrip, rsp_roundtrip_coils); custom responses with any unmodelled code keep code byte and data; every exception (all f < 0x80, all nine codes, both FunctionCode constructions) "
+      "encodes to two bytes and decodes back to the same function value and exception (exc_roundtrip) (Props/C02.lean).",
+      "Response::WriteSingleCoil round-trips in the crate's own three-byte form (its non-conformance to the specification is C03's open finding D12).")
+
+claim("C03", "Lean 4 theorems against an independent statement of the wire layouts (Spec/Wire.lean, Spec/Bits.lean) + differential correspondence + reference-encoder oracle",
+      "Proved for the model: the image of every built request equals the specification's bytes (function code, big-endian fields, byte count = payload length, LSB-first coil packing with zero padding, FF00/0000) and every "
+      "in-scope specification PDU decodes to the meaning the specification assigns (req_conforms, req_decodes_spec; Props/C03Req.lean); the same for responses and exception responses as ..._partial excluding exactly "
+      "Response::WriteSingleCoil, whose three-byte image is proved different from the five-byte echo for every address (rsp_conforms_partial, rsp_write_single_coil_defect, exc_conforms, rsp_decodes_spec; Props/C03Rsp.lean).",
+      "Open finding D12 (WriteSingleCoil response is 3 bytes) is pinned by three unedited unit tests; see KNOWN_FINDINGS.txt. Spec/*.lean is trusted as a transcription of the Modbus Application Protocol v1.1b3.")
+
+claim("C04", "Lean 4 theorems composing the ADU encoder equation, the reception theorems (C10) and the PDU decoders + differential correspondence over all 256 slave ids + round-trip oracle",
+      "Proved for the model, for every slave id: the encoded frame is slave id, PDU, be16(crc16) of those bytes, length PDU+3 (rtu_req_layout, rtu_rsp_layout); handing that frame (also followed by further bytes) to the opposite decoder returns the same "
+      "slave id and the PDU decoder's value; exception responses (functions 1..0x2B, nine codes) come back as exceptions (rtu_exception_roundtrip); requests as ..._partial excluding 0x0F/0x10 (open finding D4) and responses excluding "
+      "WriteSingleCoil (open finding D12), each with defect witnesses and refutations of the full statement (Props/C04.lean).",
+      "For the variable-payload kinds the PDU-level round trip enters as a hypothesis that C01/C02 discharge (C01.req_roundtrip, C02.rsp_roundtrip); fixed-layout kinds and exceptions are hypothesis-free. That crc16 is CRC-16/MODBUS with the low byte first is C06.")
+
+claim("C05", "Lean 4 theorems composing the ADU encoder equation, the reception theorems (C10) and the PDU decoders + differential correspondence over transaction/unit ids + round-trip oracle",
+      "Proved for the model, for every transaction id and unit id: the encoded ADU is tid (big-endian), protocol id 0, length = PDU+1, unit id, PDU, total PDU+7 (tcp_req_layout, tcp_rsp_layout, tcp_frame_fields); decoding it "
+      "(also followed by further bytes) returns the same tid, uid and the PDU decoder's value; an exception response (functions 1..0x2B) is returned as an exception, never as a success (tcp_exception_roundtrip, tcp_exception_never_success); "
+      "responses as ..._partial excluding WriteSingleCoil (open finding D12, witness) (Props/C05.lean).",
+      "Exception frames for function 0 or 0x2C..0x7F are not frameable by the length table: proved to yield 'incomplete', never a success. Variable-payload kinds: PDU-level round trip is the hypothesis discharged by C01/C02.")
+
+claim("C13", "Lean 4 theorems (inversion of the decoders, coherence of the decoded containers, exact characterisation of the defect region) + differential correspondence on corrupted count fields + usage oracle",
+      "Proved for the model: EVERY value Response.decode returns is coherent (len; get returns an item below len and nothing at or above it for every index value; iteration yields len items; pdu_len and encode never panic; "
+      "re-encode/decode gives the same meaning) and encodes into every buffer >= pdu_len (rsp_decoded_coherent, rsp_decoded_encodes); for requests the same holds IFF the input is not a write-multiple-coils request whose data is "
+      "shorter than ceil(quantity/8) (req_decoded_coherent_iff; ..._partial forms; witness for 0F 33 11 00 04 00, also through both ADU decoders) (Props/C13.lean).",
+      "The excluded region is exactly open finding D5b, pinned by the unedited unit test deserialize_requests::write_multiple_coils; see KNOWN_FINDINGS.txt.")
+
+claim("C19", "Lean 4 theorems (the encoder's outcome is a function of `fits`) + differential correspondence at sizes 120..300, 1000, 32767..70000 words and 1960..2100, 4000, 65536+ coils",
+      "Proved for the model, for every payload size constructible through the public constructors (no bound): encode never panics; if it succeeds the payload fits, the bytes are exactly the specification's bytes "
+      "(count fields equal the payload) and decode to an equivalent value; if the payload does not fit the one-byte count, encode is an error for every buffer "
+      "(req_no_truncation, req_encode_outcome, rsp_no_truncation, rsp_error_or_exact, count_fields_*; Props/C19Req.lean, C19Rsp.lean).",
+      "The MBAP length field of tcp::server::encode_* ((len+1) as u16) can wrap only for custom PDUs of >= 65535 bytes; the property's scope is the PDU encoders' count fields, and C05 carries the explicit hypothesis.")
